@@ -33,6 +33,13 @@ pub assume_specification[u32::abs_diff](a: u32, b: u32) -> (r: u32)
     ensures r == if a >= b { a - b } else { b - a },
 ;
 
+// [trusted:assumed-spec] usize::overflowing_add: the wrapped sum and whether it wrapped
+pub assume_specification[usize::overflowing_add](a: usize, b: usize) -> (r: (usize, bool))
+    ensures
+        r.1 == (a + b > usize::MAX),
+        !r.1 ==> r.0 == a + b,
+;
+
 // [trusted:assumed-spec] <[T]>::reverse reverses the slice in place
 pub assume_specification<T>[<[T]>::reverse](s: &mut [T])
     ensures final(s)@ == old(s)@.reverse(),
